@@ -114,8 +114,9 @@ FacesPos(groups) == Flat([g \in DOMAIN groups |-> [t \in DOMAIN groups[g].tris |
                             [c \in 1..3 |-> groups[g].tris[t][c][1]]]])
 
 Count(seq, x) == Cardinality({i \in DOMAIN seq : seq[i] = x})
-\* faces of a that occur more often in a than in b
-Surplus(a, b) == {x \in Range(a) : Count(a, x) > Count(b, x)}
+\* faces of a that occur more often in a than in b (equal lists have none: the usual case, and
+\* linear instead of quadratic for the long lists of the size profiles)
+Surplus(a, b) == IF a = b THEN {} ELSE {x \in Range(a) : Count(a, x) > Count(b, x)}
 
 (***************************************************************************)
 (* Meshes as the harness projects them through public observers.           *)
